@@ -337,8 +337,11 @@ class PiecewiseConstantBirthDeath(Distribution):
             # true if the node of the given index occurs at the time of a
             # rho-sampling event
             is_rho_tip = (
-                torch.sum(times.unsqueeze(-2) == y.unsqueeze(-1), -1)
-                * rho.gather(-1, indices_y)
+                torch.sum(
+                    (times[..., 1:].unsqueeze(-2) == y.unsqueeze(-1))
+                    * rho.unsqueeze(-2),
+                    -1,
+                )
                 > 0.0
             )
 
@@ -414,9 +417,7 @@ class PiecewiseConstantBirthDeath(Distribution):
             )
 
         mask = (N > 0).logical_and(rho > 0.0)
-        if torch.any(mask):
-            p = torch.masked_select(N, mask) * torch.masked_select(rho, mask).log()
-            log_p += p.squeeze() if log_p.dim() == 0 else p
+        log_p += (N * torch.where(mask, rho, torch.ones_like(rho)).log()).sum(-1)
 
         if self.removal_probability is not None:
             log_p += torch.tensor(2.0).log() * (taxa_shape[-1] - 1)
